@@ -144,3 +144,136 @@ def bool_gate(F, fid, call):
             continue
         return None
     return None
+
+
+def dominating_guards(F, fid, bb, org=None):
+    """For block bb: [(switch_bb, edge, cond)] for every dominating switch where exactly one successor dominates bb.
+    edge = '0' (false / first variant) or 'other'/value string; cond = dict(kind='bin'|'call'|'discr'|'other', op/callee, lhs/rhs/args origins)."""
+    import fieldflow as ff
+    fn = F.fns[fid]
+    org = org or ff.Origins(F, fid)
+    out = []
+    for s in dominators(fn, bb):
+        t = fn["bbs"][s]["t"]
+        if t[1] != "switch":
+            continue
+        edge = None
+        n = 0
+        for v, tgt in t[3]:
+            if dominated_by(fn, bb, tgt):
+                edge = v
+                n += 1
+        if dominated_by(fn, bb, t[4]) and t[4] not in [x[1] for x in t[3]]:
+            edge = "other"
+            n += 1
+        if n != 1:
+            continue
+        out.append((s, edge, describe_cond(F, fid, s, org)))
+    return out
+
+
+def describe_cond(F, fid, s, org):
+    fn = F.fns[fid]
+    t = fn["bbs"][s]["t"]
+    pl = op_place(t[2])
+    neg = False
+    cur = pl
+    for _ in range(6):
+        ds = [d for d in org.defs.get((cur or "_x").split("|")[0], []) if d[2] == cur]
+        if len(ds) != 1:
+            break
+        kind, bi, dest, x = ds[0]
+        if kind == "call":
+            to = x[2].get("to") or ""
+            return {"kind": "call", "callee": to, "neg": neg, "args": [sorted(org.of_operand(a)) for a in x[3]], "bb": bi}
+        rv = x
+        if rv[0] == "bin":
+            return {"kind": "bin", "op": rv[1], "neg": neg, "lhs": sorted(org.of_operand(rv[2])), "rhs": sorted(org.of_operand(rv[3])), "bb": bi}
+        if rv[0] == "un" and rv[1] == "Not":
+            neg = not neg
+            cur = op_place(rv[2])
+            continue
+        if rv[0] == "use":
+            cur = op_place(rv[1])
+            continue
+        if rv[0] == "discr":
+            return {"kind": "discr", "neg": neg, "of": sorted(org.of_place(rv[1])), "bb": bi}
+        break
+    return {"kind": "other", "neg": neg, "of": sorted(org.of_place(pl)) if pl else []}
+
+
+def has_origin(orgs, pred):
+    return any(pred(o) for o in orgs)
+
+
+def call_origin(suffix):
+    return lambda o: o.startswith("call:") and o.split("@")[0].endswith(suffix)
+
+
+def field_origin(adt_suffix, field):
+    return lambda o: o.startswith("field:") and o.endswith("%s.%s" % (adt_suffix, field))
+
+
+def _succs(fn, bi):
+    t = fn["bbs"][bi]["t"]
+    k = t[1]
+    if k == "goto":
+        return [t[2]]
+    if k == "switch":
+        return [x[1] for x in t[3]] + [t[4]]
+    if k == "drop":
+        return [t[3]]
+    if k == "call":
+        return [t[5]] if t[5] is not None else []
+    if k == "assert":
+        return [t[7]]
+    if k == "other":
+        return list(t[3])
+    return []
+
+
+def postdominators(fn):
+    """postdom[b] = set of blocks that postdominate b (over non-cleanup blocks, exits = ret/unreachable)."""
+    n = len(fn["bbs"])
+    nodes = [i for i in range(n) if not fn["bbs"][i]["c"]]
+    succ = {i: [s for s in _succs(fn, i) if s is not None and not fn["bbs"][s]["c"]] for i in nodes}
+    allset = set(nodes)
+    pd = {i: (set([i]) if not succ[i] else set(allset)) for i in nodes}
+    changed = True
+    while changed:
+        changed = False
+        for i in reversed(nodes):
+            if not succ[i]:
+                continue
+            new = set(allset)
+            for s in succ[i]:
+                new &= pd[s]
+            new.add(i)
+            if new != pd[i]:
+                pd[i] = new
+                changed = True
+    return pd, succ
+
+
+def control_deps(F, fid, bb):
+    """switch blocks on which `bb` is control dependent (transitively closed)"""
+    fn = F.fns[fid]
+    pd, succ = postdominators(fn)
+    out = set()
+    work = [bb]
+    seen = set()
+    while work:
+        b = work.pop()
+        if b in seen:
+            continue
+        seen.add(b)
+        for s in pd:
+            if fn["bbs"][s]["t"][1] != "switch":
+                continue
+            if b in pd[s] and s != b:
+                continue  # b postdominates s: not dependent
+            if any(b in pd[x] for x in succ[s]):
+                if s not in out:
+                    out.add(s)
+                    work.append(s)
+    return out
